@@ -92,7 +92,7 @@ def run(prop, tier, cases, run_case, rule, replay=None, sig_extra=None, nontrivi
     return rep.finish({
         "evaluations": n_ev,
         "distinct_nontrivial": len(nontriv),
-        "traces_validated_against_impl": len(traces),
+        "traces_validated_against_impl": len(traces) + rep.cov.get("traces_validated_against_impl", 0),   # + states replayed by the generator tiers
         "rule": rule,
         "verdict_counts": counts,
         "events_by_tactic_used": tactic_use,
